@@ -40,7 +40,7 @@ theorem jit_prologue_sim_fixed (env : Env) (haddr : Nat → Option Nat) (c : Cfg
   rw [hl0] at hcs
   obtain ⟨k, σ', retAddr, top, hst, hrel0, htop, hrip, hpad, hsaved, hlm⟩ :=
     entryf_prologue c L m d e σ tgt l hexit hcs (hloc 0 l hl0) hsize he
-  exact ⟨k, σ', retAddr, top, hst, ⟨hrel0, htop, ⟨i0, hi0⟩, ⟨l, hl0, hrip⟩⟩, hpad, hsaved,
+  exact ⟨k, σ', retAddr, top, hst, ⟨hrel0, htop, ⟨i0, hi0⟩, ⟨l, hl0, hrip⟩, rfl⟩, hpad, hsaved,
     congrArg Prod.fst hlm, congrArg Prod.snd hlm⟩
 
 /-- a returning run starts with an instruction that exists -/
